@@ -7,6 +7,7 @@
 //	rt <hexprog>                 [A, A2]        A = P|_query_fromstring, A2 = A|_query_tostring|_query_fromstring
 //	                                            (A2 = {"reparse_error":..} when the printed text does not parse)
 //	ctor <name> <hexP1> <hexP2>  {"in":[A1,A2],"out":V}   V = the constructor / walker applied by fq (see ctorExprs)
+//	pp <tok> <tok> ...           AST | "reject"   (operator core, see pp.go)
 //	rw <opts> <hexprog>          {"a":A,"o":OPTS,"r":R,"s":S,"p":RP}
 //	                                            R  = fq's rewrite of A (body of _eval_query_rewrite, taken from eval.jq's
 //	                                                 current text, applied to A without directives — the AST before printing)
@@ -444,6 +445,7 @@ func (rn *runner) replay(path string) {
 	var rts []rtCase
 	var rws []rwCase
 	var cts []ctorCase
+	var pps [][]string
 	for _, l := range hlib.ReplayLines(path) {
 		// harness-decided verdict lines come back as "PROPFAIL sem ..." / "OK sem ..."
 		for _, pre := range []string{"PROPFAIL ", "OK ", "KNOWN "} {
@@ -477,6 +479,8 @@ func (rn *runner) replay(path string) {
 				continue
 			}
 			cts = append(cts, ctorCase{f[1], p1, p2})
+		case len(f) >= 1 && f[0] == "pp":
+			pps = append(pps, f[1:])
 		case len(f) >= 3 && f[0] == "sem":
 			rn.semReplay(f[1:], l)
 		default:
@@ -486,6 +490,7 @@ func (rn *runner) replay(path string) {
 	rn.rt(rts)
 	rn.rw(rws)
 	rn.ctor(cts)
+	rn.pp(pps)
 }
 
 func chunk[T any](xs []T, n int, f func([]T)) {
@@ -554,9 +559,9 @@ func main() {
 	}
 
 	r := hlib.NewRand(cfg.Seed)
-	nRT, nRW, nCtor, nEv, nCli, nRepl := 4000, 1500, 800, 500, 60, 8
+	nRT, nRW, nCtor, nPP, nEv, nCli, nRepl := 4000, 1500, 800, 4000, 500, 60, 8
 	if cfg.Thorough() { // per shard
-		nRT, nRW, nCtor, nEv, nCli, nRepl = 30000, 8000, 3000, 5000, 500, 80
+		nRT, nRW, nCtor, nPP, nEv, nCli, nRepl = 30000, 8000, 3000, 40000, 5000, 500, 80
 	}
 
 	// developer switch: C11_ONLY=rt,rw,ctor,ev,cli,repl restricts the generated part (never set by ./check)
@@ -570,6 +575,9 @@ func main() {
 	}
 	if !want("ctor") {
 		nCtor = 0
+	}
+	if !want("pp") {
+		nPP = -1
 	}
 	if !want("ev") {
 		nEv = -1
@@ -610,6 +618,10 @@ func main() {
 		cts = append(cts, ctorCase{ctorNames[r.Intn(len(ctorNames))], genProgram(r.Fork(), k1, 4+r.Intn(24)), genProgram(r.Fork(), k2, 4+r.Intn(12))})
 	}
 	chunk(cts, 200, rn.ctor)
+
+	if nPP >= 0 {
+		rn.ppAll(r, nPP)
+	}
 
 	rn.semAll(r, nEv, nCli, nRepl)
 }
